@@ -340,6 +340,7 @@ def run_cases(ctx, cases):
 
 def run(ctx):
     ctx.make_overlay(need_kernel=True)
+    ctx.regen_all()
     ok = ctx.build_models(MODELS)
     if ok:
         ctx.build_props()
@@ -375,6 +376,7 @@ def replay(ctx, path):
     ctx.make_overlay(need_kernel=True)
     if payload.get("case") is None:
         return run(ctx)
+    ctx.regen_all()
     ok = ctx.build_models(MODELS)
     if ok:
         run_cases(ctx, [payload["case"]])
